@@ -136,89 +136,104 @@ def wrapSome : Nat → String → String
   | 0, v => v
   | k + 1, v => "some(" ++ wrapSome k v ++ ")"
 
+/-- what differs between the formats: the meaning of a leaf for a type, of a colour for a type,
+and of a key.  The container structure (`valNodeG` …) is common to both. -/
+structure Sem where
+  leaf : Ty → BLeaf → Res String
+  color : Ty → Rgb → Res String
+  key : BLeaf → Res Prim
+
 mutual
 /-- meaning of a node for a type.  (`prop` is not part of the binary model.) -/
-def valNode (c : Cfg) : BNode → Ty → Res String
+def valNodeG (S : Sem) : BNode → Ty → Res String
   | n, t =>
     let (k, core) := stripOpt t
     let r : Res String :=
       match core, n with
       | .ign, _ => .ok "ign"
       | .prop _, _ => .error .beyond
-      | core, .leaf l => valLeaf c core l
-      | core, .rgb col => colorVisit core col
+      | core, .leaf l => S.leaf core l
+      | core, .rgb col => S.color core col
       | .seq et, .arr vs =>
-        match valNodes c vs et [] with
+        match valNodesG S vs et [] with
         | .ok items => .ok ("[" ++ joinComma items ++ "]")
         | .error e => .error e
       | .any, .arr vs =>
-        match valNodes c vs .any [] with
+        match valNodesG S vs .any [] with
         | .ok items => .ok ("[" ++ joinComma items ++ "]")
         | .error e => .error e
       | .map _, .arr .nil => .ok "{}"
       | .struct fs, .arr .nil => structFinish fs (slotsInit fs) []
       | _, .arr _ => .error .type
       | .map vt, .obj fs =>
-        match valMap c fs vt [] with
+        match valMapG S fs vt [] with
         | .ok items => .ok ("{" ++ joinComma items ++ "}")
         | .error e => .error e
-      | .struct decl, .obj fs => valStruct c fs decl false (slotsInit decl)
+      | .struct decl, .obj fs => valStructG S fs decl false (slotsInit decl)
       | _, .obj _ => .error .type
     match r with
     | .ok v => .ok (wrapSome k v)
     | .error e => .error e
 
-def valNodes (c : Cfg) : BNodes → Ty → List String → Res (List String)
+def valNodesG (S : Sem) : BNodes → Ty → List String → Res (List String)
   | .nil, _, acc => .ok acc
   | .cons v rest, t, acc =>
-    match valNode c v t with
-    | .ok x => valNodes c rest t (acc ++ [x])
+    match valNodeG S v t with
+    | .ok x => valNodesG S rest t (acc ++ [x])
     | .error e => .error e
 
 /-- a map: every key as a string, every value as `t`, in document order (duplicates kept). -/
-def valMap (c : Cfg) : BFields → Ty → List String → Res (List String)
+def valMapG (S : Sem) : BFields → Ty → List String → Res (List String)
   | .nil, _, acc => .ok acc
   | .cons _ k v rest, t, acc =>
-    match valLeaf c .str k with
+    match S.leaf .str k with
     | .error e => .error e
     | .ok ks =>
-      match valNode c v t with
+      match valNodeG S v t with
       | .error e => .error e
-      | .ok x => valMap c rest t (acc ++ [ks ++ "=" ++ x])
+      | .ok x => valMapG S rest t (acc ++ [ks ++ "=" ++ x])
 
 /-- a struct: fields in document order; a key naming a declared field fills it (twice is
 `duplicate`), any other key's value is skipped whole; ghost objects do not count; at the end every
 declared field in order, absent `opt` = `none`, absent otherwise = `missing`. -/
-def valStruct (c : Cfg) : BFields → Fields → Bool → List (Option String) → Res String
+def valStructG (S : Sem) : BFields → Fields → Bool → List (Option String) → Res String
   | .nil, decl, _, slots => structFinish decl slots []
   | .cons _ k v rest, decl, byToken, slots =>
     let which : Res (Option Nat) :=
       match byToken, k with
       | true, .id n => .ok (decl.posTok n 0)
-      | _, _ => match leafPrim c k with | .ok p => fieldOfPrim decl byToken p | .error e => .error e
+      | _, _ => match S.key k with | .ok p => fieldOfPrim decl byToken p | .error e => .error e
     match which with
     | .error e => .error e
-    | .ok none => valStruct c rest decl byToken slots
+    | .ok none => valStructG S rest decl byToken slots
     | .ok (some i) =>
       match slots[i]?, decl.get? i with
       | some (some _), some (name, _, _) => .error (.duplicate name)
       | some none, some (_, _, fty) =>
-        match valNode c v fty with
+        match valNodeG S v fty with
         | .error e => .error e
-        | .ok x => valStruct c rest decl byToken (slots.set i (some x))
+        | .ok x => valStructG S rest decl byToken (slots.set i (some x))
       | _, _ => .error .panic
 end
 
-/-- the value a binary document has for a root request. -/
-def valueOfBin (c : Cfg) (ty : RootTy) (d : BDoc) : Res String :=
+/-- root request over a document. -/
+def valueOfG (S : Sem) (ty : RootTy) (d : BDoc) : Res String :=
   match ty with
   | .plain (.map t) =>
-    match valMap c d t [] with
+    match valMapG S d t [] with
     | .ok items => .ok ("{" ++ joinComma items ++ "}")
     | .error e => .error e
-  | .plain (.struct fs) => valStruct c d fs false (slotsInit fs)
-  | .tok fs => valStruct c d fs true (slotsInit fs)
+  | .plain (.struct fs) => valStructG S d fs false (slotsInit fs)
+  | .tok fs => valStructG S d fs true (slotsInit fs)
   | .plain (.prop _) => .error .beyond
   | .plain _ => .error .other
+
+/-- the binary format: leaves through flavor / encoding / resolver, colours as `ColorSequence`. -/
+def binSem (c : Cfg) : Sem := { leaf := valLeaf c, color := colorVisit, key := leafPrim c }
+
+def valNode (c : Cfg) : BNode → Ty → Res String := valNodeG (binSem c)
+
+/-- the value a binary document has for a root request. -/
+def valueOfBin (c : Cfg) (ty : RootTy) (d : BDoc) : Res String := valueOfG (binSem c) ty d
 
 end Jomini.BinDe
